@@ -14,8 +14,10 @@ import (
 	"bytes"
 	"fmt"
 	"os"
+	"os/signal"
 	"runtime"
 	"strconv"
+	"syscall"
 
 	"github.com/goose-lang/goose/machine/disk"
 	"github.com/goose-lang/goose/machine/filesys"
@@ -47,6 +49,16 @@ func acMain() {
 		}
 	}()
 	fs := filesys.NewDirFs(root)
+	if lim := os.Getenv("AC_FSIZE"); lim != "" {
+		// a file-size limit: the kernel accepts the bytes up to the limit (a short write,
+		// no error) and fails the next write with EFBIG
+		l, _ := strconv.ParseUint(lim, 10, 64)
+		signal.Ignore(syscall.SIGXFSZ)
+		if err := syscall.Setrlimit(syscall.RLIMIT_FSIZE, &syscall.Rlimit{Cur: l, Max: l}); err != nil {
+			fmt.Printf("OUTCOME setrlimit-failed %v\n", err)
+			return
+		}
+	}
 	fmt.Println("STEP atomiccreate")
 	fs.AtomicCreate(dir, name, acData(n, tag))
 	fmt.Println("OUTCOME returned")
